@@ -16,3 +16,6 @@ open ZCV.Props.C16
 #print axioms C16_all_or_nothing
 #print axioms C16_refusals_are_configuration_errors
 #print axioms C16_call_ok_iff
+#print axioms C16_text_handlers_postorder'
+#print axioms C16_text_len'
+#print axioms C16_end_to_end
